@@ -12,7 +12,7 @@ FORMULA_ROWS = {
     # row-name prefix -> properties that own it
     "push": ["C01", "C11"], "insert": ["C01", "C11"], "clear": ["C01", "C03"], "ctor-fields:Pop": ["C01", "C07"], "ctor-fields:Remove": ["C01", "C07"],
     "ctor-fields:SwapRemove": ["C01", "C07"], "ctor-fields:Drain": ["C02", "C07"], "ctor-fields:Splice": ["C02", "C07"],
-    "Pop::": ["C01", "C13"], "Remove::": ["C01", "C13"], "SwapRemove::": ["C01", "C13"],
+    "Pop::": ["C01", "C13", "C05"], "Remove::": ["C01", "C13", "C05"], "SwapRemove::": ["C01", "C13", "C05"],
     "Drain::drop": ["C02", "C03"], "Splice::drop": ["C02", "C03", "C11", "C05"],
     "slot-pointer": ["C01", "C13", "C05"], "view:": ["C12", "C05"], "set_len": ["C12"], "iter-range": ["C01", "C14"],
     "reserve": ["C10"], "reserve_exact": ["C10"], "shrink_to_fit": ["C10", "C05"], "shrink_to": ["C10", "C05"],
@@ -84,6 +84,9 @@ rule("R-ITER", structure.r_iter, 12,
 rule("R-SIG", structure.r_sig, 35,
      "borrow-shaped signatures: exclusive handles only from &mut self; returned lifetimes are the receiver's borrow, not an impl-level lifetime; exclusive handles/iterators are not Clone")
 
+rule("R-NOLEAK", structure.r_noleak, 2,
+     "drop suppression (ManuallyDrop::new, mem::forget, MaybeUninit::new, ManuallyDrop/MaybeUninit fields) of a value that owns storage occurs only in the "
+     "raw-parts decomposition, where the storage is handed to the caller")
 rule("R-STACKCAP", structure.r_stackcap, 4,
      "Stack<SIZE>::build computes SIZE / element size guarded by size != 0 (usize::MAX for zero-sized); StackNMem::size() = N; StackN::build establishes N x size <= SIZE")
 rule("R-CONFIG", structure.r_config, 250, multi=True,
@@ -114,28 +117,29 @@ RULES["R-BOUNDS"]["props_filter"] = _fn_filter([("ctor:Drain", ["C02", "C05"]), 
                                                  ("into_range", ["C02"])], default=["C01", "C05"])
 RULES["R-UNITS"]["props_filter"] = _fn_filter([("spare_bytes_mut", ["C12", "C05"]), ("as_bytes", ["C12", "C05"]), ("AnyVecTyped", ["C12", "C05"]), ("splice", ["C02", "C11", "C05"]),
                                                 ("drain", ["C02", "C05"]), ("heap", ["C18"]), ("stride-type", ["C03", "C05"])], default=["C01", "C05"])
-RULES["R-EXPANDGUARD"]["props_filter"] = _fn_filter([("clone", ["C08", "C11"])], default=["C11"])
+RULES["R-EXPANDGUARD"]["props_filter"] = _fn_filter([("clone", ["C08", "C11", "C19"])], default=["C11", "C19"])
 RULES["R-TYPEGUARD"]["props_filter"] = _fn_filter([("swap", ["C04", "C13"])], default=["C04"])
-RULES["R-LENLOWER"]["props_filter"] = _fn_filter([("extra-effect", ["C02", "C07", "C06", "C11"]), ("drain", ["C02", "C07", "C06"]), ("splice", ["C02", "C07", "C06"])], default=["C07", "C06", "C01", "C03"])
+RULES["R-LENLOWER"]["props_filter"] = _fn_filter([("extra-effect", ["C02", "C07", "C06", "C11", "C19"]), ("drain", ["C02", "C07", "C06"]), ("splice", ["C02", "C07", "C06"])], default=["C07", "C06", "C01", "C03"])
 RULES["R-HEAP"]["props_filter"] = _fn_filter([("size-update", ["C18", "C10"]), ("layout", ["C18", "C12"]), ("build-allocates", ["C18", "C10"])], default=["C18"])
 RULES["R-FORGET"]["props_filter"] = _fn_filter([("LazyClone", ["C09", "C03"]), ("lazy", ["C09", "C03"])], default=["C03", "C09"])
-RULES["R-PROVENANCE"]["props_filter"] = _fn_filter([("reporter", ["C04", "C13"]), ("clone", ["C08", "C03"]), ("CLONE_FN", ["C08"]), ("destr", ["C03"])], default=["C04", "C08", "C03"])
+RULES["R-STACKCAP"]["props_filter"] = _fn_filter([("zero-size-capacity", ["C11"])], default=["C11", "C05"])
+RULES["R-PROVENANCE"]["props_filter"] = _fn_filter([("reporter", ["C04", "C13"]), ("clone_type::clone_fn", ["C08", "C03", "C09", "C01"]), ("clone", ["C08", "C03"]), ("CLONE_FN", ["C08"]), ("destr", ["C03"])], default=["C04", "C08", "C03"])
 
 PROPERTIES = {
-    "C01": {"rules": ["R-BOUNDS", "R-FORMULA", "R-UNITS", "R-OVERLAP"],
+    "C01": {"rules": ["R-BOUNDS", "R-FORMULA", "R-UNITS", "R-OVERLAP", "R-PROVENANCE"],
             "not_decided": "value-level equality of elements (the analysis tracks slots and byte ranges, not contents); user backends violating the Mem contract"},
     "C02": {"rules": ["R-BOUNDS", "R-LENLOWER", "R-ITER", "R-FORMULA", "R-NONINTERFERENCE", "R-UNITS", "R-ARITH", "R-BOUNDLOOP"],
             "not_decided": "equality of yielded values"},
-    "C03": {"rules": ["R-FORGET", "R-PROVENANCE", "R-ORDER", "R-NONINTERFERENCE", "R-FORMULA", "R-LENLOWER"],
+    "C03": {"rules": ["R-FORGET", "R-PROVENANCE", "R-ORDER", "R-NONINTERFERENCE", "R-FORMULA", "R-LENLOWER", "R-NOLEAK"],
             "not_decided": "a global count of live values over histories (ownership discipline is decided, not identity accounting)"},
     "C04": {"rules": ["R-TYPEGUARD", "R-PROVENANCE", "R-ORDER"], "not_decided": "which downcast succeeds at run time; decided: every unchecked reinterpretation sits behind the right equality test"},
-    "C05": {"rules": ["R-ORDER", "R-BOUNDS", "R-UNITS", "R-FORMULA", "R-BOUNDLOOP", "R-NONINTERFERENCE"],
+    "C05": {"rules": ["R-ORDER", "R-BOUNDS", "R-UNITS", "R-FORMULA", "R-BOUNDLOOP", "R-NONINTERFERENCE", "R-STACKCAP"],
             "not_decided": "'no byte is read before it was written' in general, guard zones / poison (run-time notions)"},
     "C06": {"rules": ["R-ORDER", "R-BOUNDLOOP", "R-LENLOWER"], "not_decided": "that later operations stay fully usable beyond LEN<=CAP and visible-range integrity"},
     "C07": {"rules": ["R-LENLOWER", "R-FORMULA"], "not_decided": ""},
     "C08": {"rules": ["R-FORMULA", "R-ORDER", "R-EXPANDGUARD", "R-PROVENANCE"],
             "not_decided": "each source element cloned exactly once beyond the clone function's loop shape; independence beyond separate storage"},
-    "C09": {"rules": ["R-FORGET", "R-FORMULA"], "not_decided": ""},
+    "C09": {"rules": ["R-FORGET", "R-FORMULA", "R-PROVENANCE"], "not_decided": ""},
     "C10": {"rules": ["R-ARITH", "R-FORMULA", "R-HEAP"], "not_decided": "the count of reallocations over 2^16 pushes (only its structural cause, the doubling term, is checked)"},
     "C11": {"rules": ["R-EXPANDGUARD", "R-FORMULA", "R-ARITH", "R-ALLOCCONFINED", "R-STACKCAP", "R-LENLOWER"],
             "not_decided": "behavioural equality with the heap backend beyond 'same generic code, backend reached only through Mem'"},
@@ -145,8 +149,8 @@ PROPERTIES = {
     "C15": {"rules": [], "probes": ["P15"], "exhaustive": True, "not_decided": ""},
     "C16": {"rules": ["R-SIG"], "probes": ["P16"], "exhaustive": True, "not_decided": ""},
     "C17": {"rules": ["R-FIELDMAP"], "not_decided": "'indistinguishable under all further operations' follows only as 'every field is restored'"},
-    "C18": {"rules": ["R-HEAP", "R-ARITH", "R-ALLOCCONFINED", "R-UNITS"], "not_decided": "the allocator's own behaviour"},
-    "C19": {"rules": ["R-CONFIG", "R-ALLOCCONFINED"], "probes": ["P19"], "configs_quick": ["default", "no-alloc"], "not_decided": ""},
+    "C18": {"rules": ["R-HEAP", "R-ARITH", "R-ALLOCCONFINED", "R-UNITS", "R-NOLEAK"], "not_decided": "the allocator's own behaviour"},
+    "C19": {"rules": ["R-CONFIG", "R-ALLOCCONFINED", "R-EXPANDGUARD", "R-LENLOWER"], "probes": ["P19"], "configs_quick": ["default", "no-alloc"], "not_decided": ""},
 }
 for _p in PROPERTIES.values():
     _p.setdefault("explanation", _EXPL)
